@@ -359,6 +359,14 @@ fn edge_profile() -> BoxedStrategy<Profile> {
     })
     .boxed()
 }
+/// the input domain of C06 / C07 for externally supplied scenarios (fuzzer): positions within +-1e4, speeds within +-1e3,
+/// end/start accelerations moderate, limits 1e-2..1e3 in magnitude, placement fractions in [0,1), a few extra query times
+pub fn scenario_valid(s: &Scenario) -> bool {
+    let p = &s.prof;
+    let st = |x: &[f32; 3]| x[0].is_finite() && x[0].abs() <= 1.0e4 && x[1].is_finite() && x[1].abs() <= 1.0e3 && dom::moderate(x[2]);
+    let lim = |x: f32| x.is_finite() && (1.0e-2..=1.0e3).contains(&x.abs());
+    st(&p.start) && st(&p.end) && lim(p.max_vel) && lim(p.max_acc) && s.fracs.iter().all(|f| (0.0..1.0).contains(f)) && s.extra.len() <= 8
+}
 pub fn scenario_strategy() -> BoxedStrategy<Scenario> {
     let prof = prop_oneof![7 => accepted_profile(), 2 => free_profile(), 1 => edge_profile()];
     (prof, proptest::array::uniform9(0.0f32..1.0), proptest::collection::vec(prop_oneof![any::<i64>(), 0i64..2_000_000_000_000], 0..4)).prop_map(|(prof, fracs, extra)| Scenario { prof, fracs, extra }).boxed()
@@ -402,6 +410,9 @@ impl Property for C06 {
     fn check(s: &Scenario) -> CheckResult {
         check06(s)
     }
+    fn valid(s: &Scenario) -> bool {
+        scenario_valid(s)
+    }
     fn assumptions() -> Vec<String> {
         vec!["t1..t3 are private; they are recovered by bisection on get_piece, whose monotonicity is itself asserted on every sampled time sequence".into()]
     }
@@ -425,6 +436,9 @@ impl Property for C07 {
     }
     fn check(s: &Scenario) -> CheckResult {
         check07(s)
+    }
+    fn valid(s: &Scenario) -> bool {
+        scenario_valid(s)
     }
     fn extra_coverage() -> std::collections::BTreeMap<String, serde_json::Value> {
         let mut m = std::collections::BTreeMap::new();
